@@ -10,7 +10,7 @@ Transcribed from
 
 Paths are lists of segments (`str.split('.')`).  The code compares segments with the keywords
 `""` (absolute), `framer`, `frame`, `actor`, `me`, `main` and otherwise only moves them around.
-Errors the Python raises are constructors of `Err` (IndexError included).  Core Lean only.
+Errors the Python raises are constructors of `Err`.  Core Lean only.
 -/
 namespace Ioflo.ResolvePath
 
@@ -67,7 +67,8 @@ structure Ctx where
 deriving DecidableEq, Repr
 
 inductive Err where
-  | indexError       -- `parts[1]`, `parts[3]`, `parts[5]` past the end (Python IndexError)
+  | incomplete       -- "Incomplete relative pathname": `framer`, `framer.X.frame`, `framer.X.actor`,
+                     -- `framer.X.frame.Y.actor` (fix D68; an IndexError at parts[1]/[3]/[5] before it)
   | noMain           -- "Missing main framer/frame context"
   | noActor          -- "Unresolved actor context"
 deriving DecidableEq, Repr
@@ -153,7 +154,7 @@ def prepend (c : Ctx) (inode : Option (List String)) (parts : List String) : Lis
 
 /-- `actor.me` substitution: `parts[k:k+1] = nameToPath(self.actor.name)…split('.')` -/
 def substActor (c : Ctx) : List String → Except Err (List String)
-  | [] => .error .indexError
+  | [] => .error .incomplete
   | p :: rest =>
     if p = "me" then
       match c.actor with
@@ -181,7 +182,7 @@ def substFramerName (c : Ctx) (p1 : String) : Except Err String :=
 
 /-- the substitution block for a path starting with `framer` (argument: the segments after it) -/
 def substFramer (c : Ctx) : List String → Except Err (List String)
-  | [] => .error .indexError                                  -- parts[1]
+  | [] => .error .incomplete                                  -- parts[1]
   | p1 :: rest => do
     let p1 ← substFramerName c p1
     match rest with
@@ -189,7 +190,7 @@ def substFramer (c : Ctx) : List String → Except Err (List String)
     | p2 :: rest3 =>
       if p2 = "frame" then
         match rest3 with
-        | [] => .error .indexError                             -- parts[3]
+        | [] => .error .incomplete                             -- parts[3]
         | p3 :: rest4 => do
           let p3 ← substFrameName c p3
           match rest4 with
@@ -204,14 +205,28 @@ def substFramer (c : Ctx) : List String → Except Err (List String)
         return "framer" :: p1 :: "actor" :: tail
       else return "framer" :: p1 :: p2 :: rest3
 
+/-- the guard of fix D68, after the prepending block: a path that starts with `framer` and stops right
+after `framer`, after `framer.X.frame` / `framer.X.actor`, or after `framer.X.frame.Y.actor` -/
+def incompletePath : List String → Bool
+  | p0 :: rest =>
+    p0 == "framer" &&
+      (match rest with
+       | [] => true
+       | [_, p2] => p2 == "frame" || p2 == "actor"
+       | [_, p2, _, p4] => p2 == "frame" && p4 == "actor"
+       | _ => false)
+  | [] => false
+
 /-- `Act.resolvePath` from the split `ipath` to the final segments -/
 def resolveParts (c : Ctx) (inode : Option (List String)) (parts : List String) : Except Err (List String) :=
   -- `if not parts or parts and parts[0]`: empty or relative → prepending; absolute: untouched
   let parts := if parts.head? = some "" then parts else prepend c inode parts
   -- `if parts and parts[0]: if parts[0] == 'framer'`
-  match parts with
-  | [] => .ok []
-  | p0 :: rest => if p0 = "framer" then substFramer c rest else .ok (p0 :: rest)
+  if incompletePath parts then .error .incomplete
+  else
+    match parts with
+    | [] => .ok []
+    | p0 :: rest => if p0 = "framer" then substFramer c rest else .ok (p0 :: rest)
 
 /-- final text and whether it denotes a node (trailing dot); the name handed to the store is
 `createNode(ipath.rstrip('.'))` for a node and `create(ipath)` for a share -/
